@@ -33,7 +33,7 @@ def run(pid, tier):
                         'a Boolean reader given a number with suffix may report -104 or -138 (both fit the statement)',
                         'for text that is not well-formed program data only "a command error is queued and the input call fails" is required']
     plans = [dict(MaxSig=1, MaxItems=2, WsVariants='{0, 2}'), dict(MaxSig=2, MaxItems=1, WsVariants='{0}'),
-             dict(MaxSig=2, MaxItems=2, WsVariants='{1}', KindIdx='{1, 10}')]
+             dict(MaxSig=2, MaxItems=2, WsVariants='{1}', KindIdx='{1, 10, 12}')]
     if tier == 'thorough':
         plans = [dict(MaxSig=2, MaxItems=2, WsVariants='{0, 1}'), dict(MaxSig=1, MaxItems=3, WsVariants='{0, 2}')]
     scen = []
